@@ -443,9 +443,12 @@ class Decimal(Element):
 
     @unconvert.register
     def _unconvert_decimal(self, value: decimal.Decimal):
+        if not value.is_finite():
+            raise ValueError(f"'{value}' can't be written as an OFX amount")
         if self.scale is not None and not value.same_quantum(self.scale):
             raise ValueError(f"'{value}' doesn't match scale={self.scale}")
-        return str(value)
+        # Plain decimal notation; str() would write e.g. Decimal("1E+2") as "1E+2"
+        return format(value, "f")
 
     @unconvert.register
     def _unconvert_none(self, value: None) -> None:
